@@ -648,6 +648,15 @@ def _assigned_before_read(stmts, name: str, assigned: bool):
             if isinstance(s, ast.With):
                 a, _ = _assigned_before_read(s.body, name, assigned)
                 assigned = assigned or a
+            elif isinstance(s, ast.Try) and not assigned:
+                # assigned after the try when the normal path (else block, or the body if nothing can follow an exception in
+                # it) and every handler assign it
+                a_else, _ = _assigned_before_read(list(s.orelse), name, False)
+                a_body, _ = _assigned_before_read(list(s.body), name, False)
+                a_fin, _ = _assigned_before_read(list(s.finalbody), name, False)
+                handlers_ok = all(_assigned_before_read(h.body, name, False)[0] or (h.body and isinstance(h.body[-1], (ast.Raise, ast.Return, ast.Continue, ast.Break)))
+                                  for h in s.handlers)
+                assigned = a_fin or ((a_else or a_body) and handlers_ok)
         else:
             if not assigned and isinstance(s, (ast.Assign, ast.AnnAssign)) and s.value is not None and reads(s.value):
                 ok = False
